@@ -66,6 +66,14 @@ def gen_case(rng):
          "map_as_array": rng.random() < 0.3,           # some EDS files declare the mapping parameter as ARRAY (object type 8)
          "failed_first_save": rng.random() < 0.2,      # the device refused re-mapping once (transient state) before the judged save
          "frame_bit": rng.random() < 0.5}              # a compliant device reports bit 29 ("frame") for 29-bit COB-IDs
+    if c["source"] == "device" and len(subs) > 2 and rng.random() < 0.5:
+        # the dictionary describes an optional sub-entry that this device does not implement; it says so with one of the
+        # abort codes devices use for that
+        c["device_lacks"] = rng.sample(subs[2:], rng.randint(1, len(subs) - 2))
+        c["missing_code"] = rng.choice([0x06090011, 0x06020000, 0x060A0023, 0x08000000])
+        for s_, key in ((3, "inhibit"), (5, "event"), (6, "sync_start")):
+            if s_ in c["device_lacks"]:
+                c[key] = None
     if rng.random() < 0.4 and c["source"] != "load_configuration":
         # the same map object is re-configured and saved again: the prior state of the device is what the library itself left
         c["second"] = {"cob": rng.choice([cob, rng.randint(1, 0x7FF), rng.randint(0x800, 0x1FFFFFFF)]), "enabled": rng.random() < 0.6,
@@ -73,6 +81,9 @@ def gen_case(rng):
                        "mapping": random_mapping(rng), "inhibit": rng.choice([None, 0, 100, 65535]) if 3 in subs else None,
                        "event": rng.choice([None, 0, 500, 65535]) if 5 in subs else None,
                        "sync_start": rng.choice([None, 0, 7, 240]) if 6 in subs else None}
+    for s_, key in ((3, "inhibit"), (5, "event"), (6, "sync_start")):
+        if s_ in c.get("device_lacks", []) and "second" in c:
+            c["second"][key] = None          # nobody configures a timer the device does not have
     return c
 
 
@@ -154,7 +165,9 @@ def run_case(ctx, c):
         word = c["cob"] | (0 if c["enabled"] else PDO_NOT_VALID) | (0 if c["rtr"] else RTR_NOT_ALLOWED)
         if c["cob"] > 0x7FF and c.get("frame_bit"):
             word |= 1 << 29
-        dev.add_pdo(com, mp, word, c["trans"], tuple(c["subs"]), c["mapping"], c["inhibit"] or 0, c["event"] or 0, c["sync_start"] or 0)
+        dev_subs = [x for x in c["subs"] if x not in c.get("device_lacks", [])]
+        dev.missing_code = c.get("missing_code", 0x06090011)
+        dev.add_pdo(com, mp, word, c["trans"], tuple(dev_subs), c["mapping"], c["inhibit"] or 0, c["event"] or 0, c["sync_start"] or 0)
     else:
         dev.add_pdo(com, mp, c["old_cob"], 255, tuple(c["subs"]), c["old_mapping"], 1, 2, 3)
     bus.actor_station("refserver", ServerActor(dev, 0x600 + NODE, 0x580 + NODE))
